@@ -13,7 +13,7 @@ SPEC = {
     ],
     "stages": [
         gen("vh_c20", "c20_snapshot", 640, 10000, min_cases_quick=160,
-            floors={"activated": 0.1, "state-forbids": 0.15, "parseable-mutation-rejected": 0.3, "bg-validated": 0.02, "bg-mismatch-detected": 0.01},
+            floors={"activated": 0.1, "state-forbids": 0.1, "parseable-mutation-rejected": 0.3, "bg-validated": 0.02, "bg-mismatch-detected": 0.01},
             rule="fresh node + up to 8 mutated snapshot files; non-trivial = a coin-level mutation that keeps the file parseable was rejected"),
     ],
 }
